@@ -77,7 +77,7 @@ CHECKS = {
         "cases = generated transfer schedules (target given/any/invalid, gated delivery of timeout-now, its reply and the vote traffic, concurrent updates and membership actions); non-trivial: a timeout-now request was written and the transfer task completed; distinct by trace hash",
         2000, 20000),
     "C17": vsim("TestVerif_C17", ["converge", "stability"],
-        "cases = generated fault histories from every profile (partitions, crashes at hook points, restarts, lagging followers, compaction leaving followers behind, removed nodes that keep running), then an availability phase: holds released, a drawn superset of a majority of the committed configuration's voters is restarted and keeps exchanging messages, everybody else is cut off or stays down, virtual time runs 40 s (20-40 election timeouts), a probe update is submitted, 20 s more. Oracle (bounded liveness): exactly one leader inside the healthy set, it committed an entry of its own term, the probe completed, every healthy member has the leader's last index and applied index. Stability oracle (time-frozen delivery steps in gated mode): a follower that believed in leader L before the step and still does answers a vote request without transfer permission from another node with leaderKnown and an unchanged term. non-trivial: >=2 faults and the availability phase ran, or the stability oracle judged a request; distinct by trace hash",
+        "cases = generated fault histories from every profile (partitions, crashes at hook points, restarts, lagging followers, compaction leaving followers behind, removed nodes that keep running), then an availability phase: holds released, a drawn superset of a majority of the committed configuration's voters is restarted and keeps exchanging messages, everybody else is cut off or stays down, virtual time runs 40 s (20-40 election timeouts), a probe update is submitted, 20 s more. Oracle (bounded liveness): exactly one leader inside the healthy set, it committed an entry of its own term, the probe completed, every healthy member has the leader's last index and applied index. Stability oracle, two parts: (a) in time-frozen delivery steps of gated schedules a follower that believed in leader L before the step and still does answers a vote request without transfer permission from another node with leaderKnown; (b) function-level: for generated voter states (the votefn generator of C05) every request without transfer permission to a follower that knows a leader other than the sender is answered leaderKnown and leaves term, vote, leader and the term file unchanged. non-trivial: >=2 faults and the availability phase ran, or the stability oracle judged a request; distinct by trace hash",
         1500, 15000, extra_assume=["bounded liveness over sampled histories: 'eventually' is not decided; the bound is 60 virtual seconds = 30-60 election timeouts"]),
     "C19": vsim("TestVerif_C19", ["info-order", "info-monotonic", "info-config"],
         "cases = generated per-node request sequences with a GetInfo task handed to every idle node after every step; non-trivial: a node answering >=2 reports processed a snapshot installation, truncation or configuration revert; distinct by trace hash",
@@ -91,7 +91,7 @@ CHECKS = {
         "thorough": {"checks": 40000, "timeout": 2400, "shrinktime": "30s", "gomaxprocs": 1},
     },
     "C05": {
-        "pkg": "raft", "test": "TestVerif_C05", "deciding": ["votefn"], "level": "fault_enumeration",
+        "pkg": "raft", "test": "TestVerif_C05", "deciding": ["votefn", "stability"], "level": "fault_enumeration",
         "rule": "cases = rapid-generated sequences (1..25 ops) on a real Raft value without Serve: vote requests (term in {cur-1,cur,cur+1,cur+k,>=2^63}, candidate in {known leader, previous vote, others, ids>=2^63}, log position around the voter's, transfer flag), hearing from a leader, term bumps, log growth, self-vote (what startElection persists), restarts. EVERY vote request is executed three times: normally, and in two sibling branches on a copy of the directory - rename refused (crash before persist) and panic injected right after the rename (crash after persist, before reply) - each followed by a restart from that image. Oracle = reference model of the term file: per term at most one non-zero vote ever durable, a durable vote never forgotten, disk term never decreases, reply 'success' for (T,C) => disk reads exactly (T,C) at that instant, reply term / term after restart never below any reported term, memory equals disk after every call, refused rename leaves disk unchanged. non-trivial: sequence holds >=2 requests for one term from different candidates, or a restart; distinct by hash of the op/result trace",
         "assumptions": ["voter states are produced with the package's own setters (setTerm, setVotedFor, appendEntry) plus direct assignment of the volatile leader/state fields, i.e. states a running node reaches",
                         "crash = process kill at the two points of the persist sequence (before rename via the package's grantingVote test seam, after rename via the verif hook)"],
